@@ -20,6 +20,56 @@ pub enum Op {
     /// set the mask without iterating yet (removals may follow before the drain)
     SetMask(u64),
 }
+/// A second generator brought to the state the program's generator is in when `steps` moves of
+/// the drain at `ops[i]` have been taken - by plain `next()` calls only (every earlier phase is
+/// drained to its final `None`). What a consuming method makes of the rest must agree with what
+/// plain iteration makes of it.
+fn twin_at(b: &chess::Board, ops: &[Op], i: usize, steps: usize) -> MoveGen {
+    let mut mg = MoveGen::new_legal(b);
+    let mut yielded: BTreeSet<Mv> = BTreeSet::new();
+    for op in &ops[..i] {
+        match op {
+            Op::RemoveMove(m) => {
+                if !yielded.contains(m) {
+                    let _ = mg.remove_move(bridge::mv(*m));
+                }
+            }
+            Op::RemoveMask(bb) => mg.remove_mask(BitBoard::new(*bb)),
+            Op::SetMask(m) => mg.set_iterator_mask(BitBoard::new(*m)),
+            Op::Phase(m) => {
+                mg.set_iterator_mask(BitBoard::new(*m));
+                for _ in 0..300 {
+                    match mg.next() {
+                        Some(x) => {
+                            yielded.insert(bridge::rmv(x));
+                        }
+                        None => break,
+                    }
+                }
+            }
+            Op::Drain => {
+                for _ in 0..300 {
+                    match mg.next() {
+                        Some(x) => {
+                            yielded.insert(bridge::rmv(x));
+                        }
+                        None => break,
+                    }
+                }
+            }
+        }
+    }
+    if let Op::Phase(m) = &ops[i] {
+        mg.set_iterator_mask(BitBoard::new(*m));
+    }
+    for _ in 0..steps {
+        if mg.next().is_none() {
+            break;
+        }
+    }
+    mg
+}
+
 impl Op {
     fn to_json(&self) -> Value {
         match self {
@@ -284,9 +334,24 @@ pub fn check_program(ctx: &mut Ctx, start: &Pos, moves: &[Mv], ops: &[Op]) -> Re
                                 None,
                             )
                         }
-                        _ => {
+                        _ if fp(&(i, "count-or-last")) % 2 == 0 => {
                             ctx.class("drain:by-value-count");
                             (vec![], Some(owned.count()))
+                        }
+                        _ => {
+                            // last(): the final move of the rest, as plain iteration of a twin
+                            // generator in the same state gives it
+                            ctx.class("drain:by-value-last");
+                            let twin: Vec<Mv> = twin_at(&b, ops, i, got.len()).map(bridge::rmv).collect();
+                            let l = owned.last().map(bridge::rmv);
+                            if l != twin.last().copied() {
+                                ctx.fail(
+                                    "iter:last",
+                                    format!("phase #{} (mask {:#x}): after {} moves last() = {:?}, but plain iteration of a generator in the same state ends with {:?}", i, mask, got.len(), l.map(|m| m.uci()), twin.last().map(|m| m.uci())),
+                                    case(),
+                                )?;
+                            }
+                            (vec![], Some(twin.len()))
                         }
                     };
                     let n_rest = counted.unwrap_or(rest.len());
